@@ -44,8 +44,8 @@ CLAUSES (statement / quantifier -> facet : deciding assertion -> populated class
                       cn-varies-in-frame frame-has-cn1-and-cn>=3 self-listed-neighbour
   neighbour definitions -> libfiles -> writer-*
   weight file (incl. negative weights)   none / positive / signed with zeros / all equal (either sign) / integer text; five
-                      number formats; weight rows shuffled independently -> order : compare_psi -> w-* wfmt* w-has-negative
-                      weighted-rows-not-id-sorted
+                      number formats; weight rows shuffled independently; "no weights" as omitted / None / "" -> order :
+                      compare_psi -> w-* wfmt* w-has-negative weighted-rows-not-id-sorted no-weights-as-*
   symmetry l 1..12    python int / numpy int / float -> all facets -> l01..l12 l-odd l-even l-as-*
   |psi| <= 1          order / lattices / libfiles on every particle (also unasserted ones)
   = 1 on a perfect l-fold lattice   lattices -> triangular square honeycomb x box-* x l-matched
@@ -56,7 +56,8 @@ CLAUSES (statement / quantifier -> facet : deciding assertion -> populated class
                       floor-division-would-differ edge-ambiguous-pairs
   time correlation    time_corr: t axis, C(t), lag 0 == 1, csv, two calls -> spacing-even spacing-uneven spacing-repeated
                       spacing-back spacing-all-equal spacing-single dt-int
-  histories / averaging windows   history -> same-shape other-shape first-*; time_average second-window-*
+  histories / averaging windows   history -> same-shape other-shape first-*; time_average second-window-*; order: a second
+                      boo_2d on the SAME Snapshots object after its positions were permuted in place -> snapshots-mutated-in-place
   Weak before round 3 and closed now: sizes stopped at N = 20 / cn = 12; entries inside a row were in distance or random
   order only; results were compared and discarded at once; spatial_corr / time_corr were evaluated once per object; the
   snapshot-id file of time_average was never read; integer-text weights, float-text ids, mask / l representations, integer
@@ -89,7 +90,8 @@ RULE = ("2D configurations (orthogonal / triclinic / axes-exchanged general cell
         "number formats) x l 1..12 (int / numpy int / float) x mask as array / list / tuple / float / bool. Repeated calls "
         "on one object (lthorder x3 interleaved with a second object; time_average mode A/window w, then mode not-A/window "
         "w2, then A/w again; spatial_corr and time_corr twice; facet history: every method twice in a drawn order on two "
-        "objects of the same l), every result kept alive and re-compared bit for bit. non-trivial (order, rotation, "
+        "objects of the same l; a second object on the same snapshots after an in-place change of the positions), every result "
+        "kept alive and re-compared bit for bit. non-trivial (order, rotation, "
         "libfiles) = coordination numbers differ between particles, or weights non-uniform, or >= 2 frames; and at least "
         "one asserted particle has |psi| > 1e-3")
 ASSUMPTIONS = [
@@ -431,6 +433,7 @@ def case_st(draw, frames=(1, 5), l_values=tuple(range(1, 13)), wclasses=WCLASSES
     ppp_repr = draw(pick(PPP_REPRS)) if reprs else "int64"
     l_repr = draw(pick(L_REPRS)) if reprs else "int"
     idfmt = draw(pick(ID_FORMATS)) if reprs else "%d"
+    nowf = draw(pick(["omit", "omit", "None", "empty"])) if reprs else "omit"
     intgrid = bool(reprs and kw.get("Ns") is None and not kw.get("force_open") and kw.get("cell_kind", "any") == "any"
                    and draw(pick(range(8))) == 3)
     selfl = bool(self_listed and draw(pick(range(6))) == 3)
@@ -440,7 +443,7 @@ def case_st(draw, frames=(1, 5), l_values=tuple(range(1, 13)), wclasses=WCLASSES
     case = dict(traj)
     case.update(lists)
     case.update(w)
-    case.update(l=l, ppp_repr=ppp_repr, l_repr=l_repr, idfmt=idfmt)
+    case.update(l=l, ppp_repr=ppp_repr, l_repr=l_repr, idfmt=idfmt, nowf=nowf)
     return case
 
 
@@ -518,6 +521,8 @@ def run_boo(case, nb, wf, pos=None, ppp=None, **extra):
               ppp=ppp_as(case["ppp"] if ppp is None else ppp, case.get("ppp_repr", "int64")))
     if wf:
         kw["weightsfile"] = wf
+    elif case.get("nowf", "omit") != "omit":
+        kw["weightsfile"] = {"None": None, "empty": ""}[case["nowf"]]   # "no weights" spelt as None (docs) or "" (signature)
     if case["Nmax"] is not None:
         kw["Nmax"] = np.int64(case["Nmax"]) if case.get("l_repr") == "np.int64" else int(case["Nmax"])
     kw.update(extra)
@@ -603,6 +608,8 @@ def common_tags(case, amb=None):
         tags.append("int64-snapshot")
     if case.get("self_listed"):
         tags.append("self-listed-neighbour")
+    if case["weights"] is None:
+        tags.append("no-weights-as-" + case.get("nowf", "omit"))
     if N >= 31:
         tags.append(f"size-boundary-N{N}")
     raw = sorted({len(L) for fr in case["lists"] for L in fr})
@@ -649,6 +656,7 @@ def order_case(draw, **kw):
     case["shift"] = draw(hnp.arrays(np.int64, (N, 2), elements=st.integers(-2, 2)))
     case["translate"] = draw(hnp.arrays(np.float64, (2,), elements=fl(-3.0, 3.0)))
     case["save_phi"] = draw(st.booleans())
+    case["inplace"] = bool(draw(pick(range(5))) == 3)
     return case
 
 
@@ -696,6 +704,25 @@ def check_order(case):
     same_bits("lthorder() second result after later calls", raw_again, again)
     same_bits("lthorder(output_phi) third result after later calls", raw_third, third)
     tags = common_tags(case, amb) + (["psi0-clearly-nonzero"] if np.all(np.abs(ref[:, 0]) > 0.1) else [])
+    if case.get("inplace") and N >= 3:
+        # state carried between calls (EXTENSION_1 class 3): the SAME snapshot objects with other contents - the particles'
+        # coordinates are permuted in place - then a new boo_2d on the same Snapshots object and the same files: every
+        # value must be the reference for the contents at call time (no memo keyed on object identity)
+        perm = np.roll(np.arange(N), 1)
+        pos2 = [p[perm].copy() for p in case["pos"]]
+        for snap, p2 in zip(boo.snapshots.snapshots, pos2):
+            snap.positions[...] = p2.astype(snap.positions.dtype)
+        ref2, tol2, amb2 = reference(case, pos=pos2)
+        kw = dict(l=case["l"], neighborfile=nb, ppp=np.array(case["ppp"], dtype=int))
+        if wf:
+            kw["weightsfile"] = wf
+        if case["Nmax"] is not None:
+            kw["Nmax"] = int(case["Nmax"])
+        boo2 = boo_2d(boo.snapshots, **kw)
+        compare_psi("ParticlePhi of a new object on the same snapshots after an in-place change of the positions",
+                    phi_of("ParticlePhi (in-place)", boo2, T, N), ref2, tol2, amb2)
+        same_bits("ParticlePhi of the first object after a second object was built", first_attr, phi)
+        tags.append("snapshots-mutated-in-place")
     return {"nontrivial": is_nontrivial(case, ref, amb), "tags": tags,
             "extra": {"ambiguous_particles": int(amb.sum()), "asserted_particles": int((~amb).sum())}}
 
@@ -1244,7 +1271,7 @@ def sized_case(draw, Ns, cn_big, frames=(1, 2), **kw):
     if what == "order":
         case = draw(order_case(frames=frames, **common))
     elif what == "scorr":
-        case = draw(scorr_case(frames=(frames[0], min(frames[1], 4)), **common))
+        case = draw(scorr_case(frames=(min(frames[0], 4), min(frames[1], 8)), **common))
     elif what == "tcorr":
         case = draw(tcorr_case(frames=(max(frames[0], 2), max(frames[1], 3)), **common))
     else:
